@@ -272,7 +272,16 @@ def inv_clauses(m, F, name, out, hyps=()):
     f = m.fields
     c = T.fresh("c")
     d = T.fresh("d")
-    V.compare_terms(P(f["_log_weights"].fn(c)), T.mk_log(P(f["_weights"].fn(c))), F, name + ".I1", out, hyps)
+    # I1 over the public accessors (whatever representation the class keeps them in): log_weights == log(weights)
+    I_ = _INTERP[0]
+    try:
+        lw, w_ = (I_.getattr(m, "log_weights"), I_.getattr(m, "weights")) if I_ is not None else (f["_log_weights"], f["_weights"])
+    except Exception:
+        lw, w_ = f.get("_log_weights"), f.get("_weights")
+    if lw is None or w_ is None:
+        out.append(Clause(name + ".I1", "undecided", "", "log_weights / weights not available"))
+    else:
+        V.compare_terms(P(lw.fn(c)), T.mk_log(P(w_.fn(c))), F, name + ".I1", out, hyps)
     if f["_variances"] is not None:
         th = thr_of(m)
         v = f["_variances"]
